@@ -1035,6 +1035,19 @@ def slice_to_ascending_slice(
     if key.step is None or key.step > 0:
         return key
 
+    if (key.start is not None and key.start < 0) or (key.stop is not None and key.stop < 0):
+        # negative bounds count from the end; normalize them, as the arithmetic below assumes positions
+        start, stop = key.start, key.stop
+        if start is not None and start < 0:
+            start += size
+            if start < 0:
+                return EMPTY_SLICE
+        if stop is not None and stop < 0:
+            stop += size
+            if stop < 0:
+                stop = None
+        key = slice(start, stop, key.step)
+
     stop = key.start if key.start is None else key.start + 1
 
     if key.step == -1:
